@@ -3,6 +3,7 @@ import Proofs.C12Coll
 import Proofs.C12Frame
 import Proofs.C12Vint
 import Proofs.C12Nest
+import Proofs.C12Decode
 import Model.MarshalInterp
 /-!
 # C12 — encoded values are the CQL specification's encoding, byte for byte; conformant encodings decode
@@ -563,5 +564,25 @@ example : ∃ c, interp (.list (.tuple [.text, .int])) (.slice false [.struct [.
   obtain ⟨c, hc, _, hs⟩ := (C12_marshal_conforms 4 (by decide) _ _ (by decide)
     (by simp [C12Nest.wf, C12Nest.wfAll, C12Nest.wfScalar]) (by decide) (by decide)).2.1 _ hm (by decide)
   exact ⟨c, hc, hs⟩
+
+/-- the converse for the scalars with a layout of their own: every specification-conformant decimal / float / double /
+    time encoding (`specDec … = some …`) decodes, in the model of gocql.Unmarshal, to exactly the value the
+    specification decoder reads — unscaled value as two's complement of any length and 4-byte scale, IEEE bit
+    patterns unchanged (NaN payloads included), nanoseconds as 8-byte two's complement -/
+theorem C12_scalar_decode_conforms (p : Nat) (isNil named : Bool) (b : Bytes) :
+    (∀ u s, specDec p .decimal b = some (.decimal u s) → unmarshalScalar .decimal isNil b .dec = .ok (.dec u s)) ∧
+    (∀ x, specDec p .float b = some (.f32 x) → unmarshalScalar .float isNil b (.f32 false) = .ok (.f32 false x)) ∧
+    (∀ x, specDec p .double b = some (.f64 x) → unmarshalScalar .double isNil b (.f64 named) = .ok (.f64 named x)) ∧
+    (∀ n, specDec p .time b = some (.int n) →
+      unmarshalScalar .time isNil b (.int .int64 named) = .ok (.int .int64 named n) ∧
+      unmarshalScalar .time isNil b .dur = .ok (.dur n)) :=
+  ⟨fun u s h => C12Decode.decimal_decode p isNil b u s h, fun x h => C12Decode.float_decode p isNil b x h,
+   fun x h => C12Decode.double_decode p isNil named b x h, fun n h => C12Decode.time_decode p isNil named b n h⟩
+
+/-- non-vacuity: 00 00 00 02 80 is the conformant decimal −1.28 -/
+example : specDec 4 .decimal [0, 0, 0, 2, 128] = some (.decimal (-128) 2) := by
+  have h1 : tcDec [128] = -128 := by decide
+  have h2 : tcDec [0, 0, 0, 2] = 2 := by decide
+  simp [specDec, minimalTC, h1, h2]
 
 end C12
